@@ -26,6 +26,7 @@ import (
 	"github.com/lestrrat-go/jwx/v2/jws"
 	v2 "github.com/nuts-foundation/nuts-node/vcr/pe/schema/v2"
 	"strings"
+	"time"
 
 	"github.com/PaesslerAG/jsonpath"
 	"github.com/dlclark/regexp2"
@@ -466,6 +467,9 @@ func getValueAtPath(path string, vcAsInterface interface{}) (interface{}, error)
 	return value, err
 }
 
+// patternMatchTimeout is the maximum time matching a single filter pattern may take.
+const patternMatchTimeout = time.Second
+
 // matchFilter matches the value against the filter. It returns true if the value matches the filter, along with the matched value.
 // A filter is a JSON Schema descriptor (https://json-schema.org/draft/2020-12/json-schema-validation.html#name-a-vocabulary-for-structural)
 // Supported schema types: string, number, boolean, array, enum.
@@ -539,6 +543,8 @@ func matchFilter(filter Filter, value interface{}) (bool, interface{}, error) {
 		if err != nil {
 			return false, nil, err
 		}
+		// patterns are supplied by the (remote) verifier, guard against catastrophic backtracking
+		re.MatchTimeout = patternMatchTimeout
 		match, err := re.FindStringMatch(value.(string))
 		if err != nil {
 			return false, nil, err
